@@ -299,6 +299,20 @@ func (y *c19Sys) judge(op string, md []byte, challenger string, before, after ma
 			}
 		}
 	}
+	// the parenthesis of the property ("or is already administered by that same challenger") exists so
+	// that a bridge can keep listing its own channels once they are in use: a metadata update whose
+	// listed channels are all administered by the bridge's challenger already has nothing to refuse
+	if op == "meta" && !ok && class == "P" && len(listed) > 0 {
+		allOwn := true
+		for _, ch := range listed {
+			if before[ch].admin != challenger {
+				allOwn = false
+			}
+		}
+		if allOwn {
+			return tagged(viol("own-channels-can-be-relisted", "%s failed although every listed channel %v is administered by the bridge's challenger %s already", label, listed, challenger), "class", class)
+		}
+	}
 	if ok && class == "P" {
 		for _, ch := range listed {
 			if after[ch].admin != challenger {
